@@ -427,6 +427,28 @@ def hostile(acc, ctx, spec):
         if any(ske.Decrypt(key, x) != m for x in a[:4] + b[:4]):
             acc.violation("aes:roundtrip:forked", "a ciphertext produced in a forked worker does not decrypt", {})
             break
+    # ---- (e) twin interpreters: two fresh processes that agree on the wall-clock second, pid, hash seed, environment
+    from vlib import twin
+    for f in range(spec.get("twins", 2)):
+        kl = KEY_LENGTHS[f % 3]
+        key, m = rng.randbytes(kl), rng.randbytes(rng.choice([0, 8, 16, 40]))
+        a, b = twin.run_pair({"kind": "c14", "key": key, "message": m, "n": 32}, ctx.scratch)
+        if a is None or b is None:
+            acc.count("hostile.twin_failed")
+            acc.note("a twin interpreter did not report")
+            continue
+        acc.count("hostile.twin_pairs")
+        acc.count("cases")
+        if len(set(a + b)) != len(a) + len(b):
+            acc.violation("aes:not-randomized:across-twin-interpreters",
+                          f"{len(a) + len(b) - len(set(a + b))} of {len(a) + len(b)} ciphertexts of one (key, message) "
+                          f"coincide between two fresh interpreters that were started in the same second with the same "
+                          f"process id and hash seed", {"key": key, "message": m, "hostile": True})
+            break
+        ske = cls(key_length=kl)
+        if any(ske.Decrypt(key, x) != m for x in a[:2] + b[:2]):
+            acc.violation("aes:roundtrip:twin", "a ciphertext produced in a twin interpreter does not decrypt", {})
+            break
 
 
 def threads(acc, ctx, spec):
@@ -509,6 +531,8 @@ def finish(m, tier, seed):
         inc.append("length contracts not exercised")
     if c.get("threads.round_trips", 0) < 300 or c.get("threads.forced_switch_points", 0) < 1000:
         inc.append("the shared-by-threads workload observed too little")
+    if c.get("hostile.twin_pairs", 0) < 1:
+        inc.append("no pair of twin interpreters reported")
     if c.get("hostile.fork_pairs", 0) < 3 or c.get("hostile.reseed", 0) < 100:
         inc.append("hostile-caller workloads (fork, re-seed, reused buffers) did not run")
     if "toolkit/symmetric_encryption/aes.py:AESxCBC.Encrypt" not in m["sets"].get("functions_entered", []):
